@@ -164,6 +164,36 @@ def dir_workload(ck):
                 ck.case("dir:" + path, key=(case, path, dircap), nontrivial=any(ch.get_write_uri() for ch in expected.values()),
                         sample={"path": path, "children": sorted(expected), "dircap_kind": wit["dircap_kind"]})
 
+            def judge_immutable(dirnode, expected, path):
+                from allmydata.util.consumer import download_to_data
+                cap = dirnode.get_readonly_uri()
+                ck.mon("dir-child-capkey-oracle")
+                ck.hit("dir-path:" + path)
+                wit = {"path": path, "dircap_kind": cap.split(b":")[1]}
+                try:
+                    kind = cap.split(b":")[1]
+                    filecap = b":".join([b"URI", {b"DIR2-CHK": b"CHK", b"DIR2-LIT": b"LIT"}[kind]] + cap.split(b":")[2:])
+                    plaintext = ok(download_to_data(reader.create_node_from_uri(filecap)), "download immutable directory bytes")
+                    entries = parse_directory(plaintext)
+                except Exception as e:  # noqa
+                    ck.violation("dir-stored-bytes-unreadable:" + path, "the stored immutable directory could not be "
+                                 "fetched/split: %s: %s" % (type(e).__name__, e), wit)
+                    return
+                if set(entries) != set(n.encode("utf-8") for n in expected):
+                    ck.violation("dir-stored-children-differ:" + path, "stored child names %r, linked %r"
+                                 % (sorted(entries), sorted(expected)), wit)
+                    return
+                for name in sorted(expected):
+                    _rocap, blob = entries[name.encode("utf-8")]
+                    ck.mon("dir-child-capkey-oracle")
+                    if blob != b"":
+                        ck.violation("dir-immutable-has-rwcap-slot:" + path,
+                                     "an immutable directory has no write key, yet the stored entry carries a %d-byte rwcap "
+                                     "slot (encrypted under some other directory's key); statement: 'directory child-cap "
+                                     "keys ... are computed exactly as the specification describes'" % len(blob),
+                                     dict(wit, child=name, slot=blob[:80]))
+                ck.case("dir:" + path, key=(case, path, cap), nontrivial=True, sample={"path": path, "children": sorted(expected)})
+
             for version, vname in ((SDMF_VERSION, "sdmf"), (MDMF_VERSION, "mdmf")):
                 # A. empty directory, children linked afterwards (every linking call)
                 ch = children(b"a" + vname.encode())
@@ -197,6 +227,39 @@ def dir_workload(ck):
                 ok(d2.set_node("late", late), "set_node on a directory with initial children")
                 after = dict(ch_b); after["late"] = late
                 judge(d2, after, "repack-after-initial_children")
+                # E. "clone": the listing of directory A (what DirectoryNode.list() returns, an AuxValueDict that carries
+                #    A's pre-packed entries) handed to every creation/linking call of ANOTHER directory.  Each slot of the
+                #    new directory must open under the NEW directory's write key.
+                def listing_of(dn):
+                    lst = ok(dn.list(), "list")
+                    return lst, {name: node for name, (node, _md) in lst.items()}
+                lst, exp = listing_of(d1)
+                d4 = ok(c.create_dirnode(lst, version=version), "create_dirnode(A.list())")
+                judge(d4, exp, "clone:create_dirnode(A.list())")
+                lst, exp = listing_of(d2)
+                d5 = ok(d3.create_subdirectory("clone-" + vname, initial_children=lst, mutable_version=version),
+                        "create_subdirectory(A.list())")
+                judge(d5, exp, "clone:create_subdirectory(A.list())")
+                lst, exp = listing_of(d3)
+                d6 = ok(c.create_dirnode(version=version), "create_dirnode")
+                ok(d6.set_nodes(lst), "set_nodes(A.list())")
+                judge(d6, exp, "clone:set_nodes(A.list())")
+                lst, exp = listing_of(d1)
+                d7 = ok(c.create_dirnode(version=version), "create_dirnode")
+                ok(d7.set_children({name: (node.get_write_uri(), node.get_readonly_uri(), md)
+                                    for name, (node, md) in lst.items()}), "set_children(A.list()-derived)")
+                judge(d7, exp, "clone:set_children(A.list()-derived)")
+                # F. immutable clone: a mutable directory that holds only immutable children, its listing handed to
+                #    create_immutable_dirnode.  An immutable directory has no write key: every rwcap slot must be empty.
+                src = ok(c.create_dirnode(version=version), "create_dirnode")
+                imm_children = {}
+                for t in (b"x", b"y"):
+                    res = ok(c.upload(Data(b"imm-" + t + vname.encode() + rng.randbytes(rng.randint(60, 150)), convergence=b"")), "upload")
+                    imm_children["imm-" + t.decode()] = c.create_node_from_uri(res.get_uri())
+                ok(src.set_nodes({k: (v, None) for k, v in imm_children.items()}), "set_nodes(immutable children)")
+                lst, exp = listing_of(src)
+                idir = ok(c.create_immutable_dirnode(lst), "create_immutable_dirnode(A.list())")
+                judge_immutable(idir, exp, "clone:create_immutable_dirnode(A.list())")
         except RuntimeError as e:
             ck.inconclusive_because("directory workload operation did not succeed on an honest grid (case %d): %s" % (case, e))
         finally:
